@@ -19,6 +19,12 @@ Reads, from the working tree of /repo (comments stripped),
       - the initial accumulators: `s_k = set1_epi16(-1)` and `ones = set1_epi16(1)` of
         argmax_u8_avx2 (as data), row-index registers / max_u8 accumulator = setzero and the
         SSE2 running maxima = -f32::INFINITY (checked here: any other shape is a parse error).
+  * lightmotif/src/dense.rs, scores.rs, pli/mod.rs (reused score buffers, round 3):
+      - the statements of `DenseMatrix::resize` (`self.data.resize_with(rows, Default::default)` /
+        a guarded grow-only variant / `truncate`, `self.rows = rows`), of `StripedScores::resize`,
+        what `dense::Iter::new` iterates over (`matrix.data.iter()`), and what the default
+        `Maximum::argmax` / `Threshold::threshold` loop over (`scores.matrix().iter().enumerate()`
+        or an index loop over `0..rows()`), as statement skeletons (C07_source_buffer);
 and writes them as plain data.  What the data must satisfy is stated and re-proved on every
 run in coq/maxi/C07.v (C07_source_dispatch_table, C07_source_lane_tables).
 
@@ -345,16 +351,240 @@ def parse_kernels():
     return k
 
 
+
+def parse_compares():
+    """comparison of the vector steps / of the scalar reductions of the f32 arg-max kernels, the
+    block offsets of argmax_sse2 and the lane count of the SSE2 backend"""
+    avx2 = _strip_comments(open(os.path.join(SRC, "pli/platform/avx2.rs")).read())
+    sse2 = _strip_comments(open(os.path.join(SRC, "pli/platform/sse2.rs")).read())
+    out = {}
+    m = re.search(r"\bimpl\s+Backend\s+for\s+Sse2\s*\{\s*type\s+Lanes\s*=\s*U(\d+)\s*;\s*\}", sse2)
+    if not m:
+        raise ParseError("`impl Backend for Sse2 { type Lanes = U<n>; }` not found")
+    out["sse2_lanes"] = int(m.group(1))
+    # --- argmax_sse2
+    b = _function_body(sse2, "argmax_sse2")
+    n = _norm(b)
+    if not re.search(r"for\w+in\(0\.\.C::Quotient::USIZE\)\.map\(\|(\w+)\|\1\*<Sse2asBackend>::Lanes::USIZE\)\{", n):
+        raise ParseError("argmax_sse2: the block loop is no longer `for off in (0..C::Quotient::USIZE).map(|i| i * <Sse2 as Backend>::Lanes::USIZE)`")
+    cm = re.findall(r"_mm_cmp(\w+)_ps\((\w+),(\w+)\)", n)
+    if len(cm) != 4 or len(set(c[0] for c in cm)) != 1:
+        raise ParseError("argmax_sse2: expected four identical `_mm_cmp??_ps(s_k, r_k)`, found %s" % cm)
+    maxima = [m_.group(1) for m_ in re.finditer(r"letmut(\w+)=_mm_set1_ps\(", n)]
+    loads = [m_.group(1) for m_ in re.finditer(r"let(\w+)=_mm_load_ps\(", n)]
+    for (_, a, r) in cm:
+        if a not in maxima or r not in loads or maxima.index(a) != loads.index(r):
+            raise ParseError("argmax_sse2: `_mm_cmp(%s, %s)` does not compare running maximum k with row register k" % (a, r))
+    op = {"le": "VCmpLe", "lt": "VCmpLt"}.get(cm[0][0])
+    if not op:
+        raise ParseError("argmax_sse2: unknown vector comparison _mm_cmp%s_ps" % cm[0][0])
+    out["sse2_vcmp"] = op
+    rm = re.findall(r"if(\w+)(>=|>)(\w+)\{\3=\1;", n)
+    if len(rm) != 1:
+        raise ParseError("argmax_sse2: expected one `if score >= best { best = score; ..}` in the reduction, found %s" % rm)
+    out["sse2_rcmp"] = "RCmpGe" if rm[0][1] == ">=" else "RCmpGt"
+    # --- argmax_f32_avx2
+    b = _function_body(avx2, "argmax_f32_avx2")
+    n = _norm(b)
+    cm = re.findall(r"_mm256_cmp_ps\((\w+),(\w+),(\w+)\)", n)
+    if len(cm) != 4 or len(set(c[2] for c in cm)) != 1:
+        raise ParseError("argmax_f32_avx2: expected four `_mm256_cmp_ps(s_k, r_k, <imm>)`, found %s" % cm)
+    maxima = [m_.group(1) for m_ in re.finditer(r"letmut(\w+)=_mm256_load_ps\(", n)]
+    loads = [m_.group(1) for m_ in re.finditer(r"let(?!mut)(\w+)=_mm256_load_ps\(", n)]
+    for (a, r, _) in cm:
+        if a not in maxima or r not in loads or maxima.index(a) != loads.index(r):
+            raise ParseError("argmax_f32_avx2: `_mm256_cmp_ps(%s, %s, ..)` does not compare running maximum k with row register k" % (a, r))
+    op = {"_CMP_LE_OS": "VCmpLe", "_CMP_LE_OQ": "VCmpLe", "_CMP_LT_OS": "VCmpLt", "_CMP_LT_OQ": "VCmpLt"}.get(cm[0][2])
+    if not op:
+        raise ParseError("argmax_f32_avx2: unknown comparison predicate %s" % cm[0][2])
+    out["avx2_vcmp"] = op
+    rm = re.findall(r"if(\w+)(>=|>)(\w+)\{\3=\1;", n)
+    if len(rm) != 1:
+        raise ParseError("argmax_f32_avx2: expected one `if score > best { best = score; ..}` in the reduction, found %s" % rm)
+    out["avx2_rcmp"] = "RCmpGe" if rm[0][1] == ">=" else "RCmpGt"
+    return out
+
+
+def _norm(t):
+    return re.sub(r"\s+", "", t)
+
+
+def _split_stmts(body):
+    """top-level statements of a block (`;`-terminated or brace-terminated)"""
+    out, depth, cur = [], 0, ""
+    for ch in body:
+        cur += ch
+        if ch in "({[":
+            depth += 1
+        elif ch in ")}]":
+            depth -= 1
+            if depth == 0 and ch == "}" and re.match(r"\s*(if|for|while|match|loop|unsafe)\b", cur):
+                out.append(cur.strip())
+                cur = ""
+        elif ch == ";" and depth == 0:
+            out.append(cur.strip())
+            cur = ""
+    if cur.strip():
+        out.append(cur.strip())
+    return out
+
+
+def _impl_blocks(src, pat):
+    return [_block(src, m.end())[0] for m in re.finditer(pat, src)]
+
+
+def _method_with_param(blocks, name, nparams, what):
+    """body and the names of the (non-self) parameters of the unique `fn name(&mut self, ..)`"""
+    found = []
+    for b in blocks:
+        for m in re.finditer(r"\bfn\s+%s\s*\(\s*&\s*(?:mut\s+)?self\s*((?:,\s*\w+\s*:\s*[^,()]+)*),?\s*\)" % name, b):
+            params = re.findall(r",\s*(\w+)\s*:", m.group(1))
+            found.append((_function_body(b[m.start():], name), params))
+    if len(found) != 1:
+        raise ParseError("%s: expected one `fn %s(&mut self, ..)`, found %d" % (what, name, len(found)))
+    body, params = found[0]
+    if len(params) != nparams:
+        raise ParseError("%s::%s: expected %d parameters, found %s" % (what, name, nparams, params))
+    return body, params
+
+
+def parse_buffer():
+    """statement skeletons of the code that makes a score buffer reusable"""
+    out = {}
+    dense = _strip_comments(open(os.path.join(SRC, "dense.rs")).read())
+    scores = _strip_comments(open(os.path.join(SRC, "scores.rs")).read())
+    mod = _strip_comments(open(os.path.join(SRC, "pli/mod.rs")).read())
+    # the fields of DenseMatrix
+    m = re.search(r"\bpub\s+struct\s+DenseMatrix\s*<[^{]*\{([^}]*)\}", dense)
+    if not m:
+        raise ParseError("struct DenseMatrix not found")
+    fields = dict((n, _norm(t)) for n, t in re.findall(r"(\w+)\s*:\s*([^,}]+)", m.group(1)))
+    vecs = [n for n, t in fields.items() if t.startswith("Vec<Row<")]
+    cnts = [n for n, t in fields.items() if t == "usize"]
+    if len(fields) != 2 or len(vecs) != 1 or len(cnts) != 1:
+        raise ParseError("struct DenseMatrix is no longer { <data>: Vec<Row<T, C>>, <rows>: usize }: %s" % fields)
+    data, rows = vecs[0], cnts[0]
+    blocks = _impl_blocks(dense, r"\bimpl\s*<[^{;]*?>\s*DenseMatrix\s*<\s*T\s*,\s*C\s*>")
+    # DenseMatrix::rows() returns the count field
+    rb = None
+    for b in blocks:
+        mm = re.search(r"\bfn\s+rows\s*\(\s*&\s*self\s*\)", b)
+        if mm:
+            rb = _norm(_function_body(b[mm.start():], "rows"))
+    if rb not in ("self.%s" % rows, "returnself.%s;" % rows, "returnself.%s" % rows):
+        raise ParseError("DenseMatrix::rows() is not `self.%s`: %s" % (rows, rb))
+    # DenseMatrix::resize
+    body, (arg,) = _method_with_param(blocks, "resize", 1, "DenseMatrix")
+    dflt = r"(?:Default::default|Row::default|Row::<T,C>::default|\|\|Default::default\(\)|\|\|Row::default\(\))"
+    grow = r"self\.%s\.(?:resize_with\(%s,%s\)|resize\(%s,(?:Default::default|Row::default)\(\)\))" % (data, arg, dflt, arg)
+    stmts = []
+    for st in _split_stmts(body):
+        n = _norm(st)
+        if re.fullmatch(grow + ";", n):
+            stmts.append("DResizeWithDefault")
+        elif re.fullmatch(r"if(?:%s>self\.%s\.len\(\)|self\.%s\.len\(\)<%s)\{%s;?\}" % (arg, data, data, arg, grow), n):
+            stmts.append("DResizeWithDefaultIfLonger")
+        elif re.fullmatch(r"self\.%s\.truncate\(%s\);" % (data, arg), n):
+            stmts.append("DTruncate")
+        elif re.fullmatch(r"self\.%s=%s;" % (rows, arg), n):
+            stmts.append("DSetRows")
+        else:
+            raise ParseError("DenseMatrix::resize: unrecognised statement `%s`" % " ".join(st.split())[:120])
+    out["dense_resize"] = stmts
+    # dense::Iter::new
+    iblocks = _impl_blocks(dense, r"\bimpl\s*<[^{;]*?>\s*Iter\s*<\s*'a\s*,\s*T\s*,\s*C\s*>")
+    news = []
+    for b in iblocks:
+        mm = re.search(r"\bfn\s+new\s*\(\s*(\w+)\s*:", b)
+        if mm:
+            news.append((mm.group(1), _norm(_function_body(b[mm.start():], "new"))))
+    if len(news) != 1:
+        raise ParseError("expected one dense::Iter::new, found %d" % len(news))
+    mat, nb = news[0]
+    mi = re.fullmatch(r"Self\{it:(.*?),?\}", nb)
+    if not mi:
+        raise ParseError("dense::Iter::new is not `Self { it: .. }`: %s" % nb[:100])
+    src = mi.group(1)
+    if src == "%s.%s.iter()" % (mat, data):
+        out["iter"] = "IterData"
+    elif src in ("%s.%s[..%s.%s].iter()" % (mat, data, mat, rows), "%s.%s.iter().take(%s.%s)" % (mat, data, mat, rows),
+                 "%s.%s[..%s.rows()].iter()" % (mat, data, mat), "%s.%s.iter().take(%s.rows())" % (mat, data, mat)):
+        out["iter"] = "IterDataTakeRows"
+    else:
+        raise ParseError("dense::Iter::new iterates over `%s`" % src[:100])
+    # DenseMatrix::iter() is Iter::new(self)
+    ib = None
+    for b in blocks:
+        mm = re.search(r"\bfn\s+iter\s*\(\s*&\s*self\s*\)", b)
+        if mm:
+            ib = _norm(_function_body(b[mm.start():], "iter"))
+    if ib != "Iter::new(self)":
+        raise ParseError("DenseMatrix::iter() is not `Iter::new(self)`: %s" % ib)
+    # StripedScores: the matrix field, resize, is_empty, matrix()
+    m = re.search(r"\bpub\s+struct\s+StripedScores\s*<[^{]*\{([^}]*)\}", scores)
+    if not m:
+        raise ParseError("struct StripedScores not found")
+    sfields = dict((n, _norm(t)) for n, t in re.findall(r"(\w+)\s*:\s*([^,}]+)", m.group(1)))
+    mats = [n for n, t in sfields.items() if t.startswith("DenseMatrix<")]
+    idxs = [n for n, t in sfields.items() if t == "usize"]
+    if len(sfields) != 2 or len(mats) != 1 or len(idxs) != 1:
+        raise ParseError("struct StripedScores is no longer { <data>: DenseMatrix<T, C>, <max_index>: usize }: %s" % sfields)
+    sdata, smi = mats[0], idxs[0]
+    sblocks = _impl_blocks(scores, r"\bimpl\s*<[^{;]*?>\s*StripedScores\s*<\s*T\s*,\s*C\s*>")
+    body, (a1, a2) = _method_with_param(sblocks, "resize", 2, "StripedScores")
+    sst = []
+    for st in _split_stmts(body):
+        n = _norm(st)
+        if n == "self.%s.resize(%s);" % (sdata, a1):
+            sst.append("SDataResize")
+        elif n == "self.%s=%s;" % (smi, a2):
+            sst.append("SSetMaxIndex")
+        else:
+            raise ParseError("StripedScores::resize: unrecognised statement `%s`" % " ".join(st.split())[:120])
+    out["scores_resize"] = sst
+    for fn, want in (("is_empty", ("self.%s.rows()==0" % sdata,)), ("matrix", ("&self.%s" % sdata,))):
+        got = None
+        for b in sblocks:
+            mm = re.search(r"\bfn\s+%s\s*\(\s*&\s*self\s*\)" % fn, b)
+            if mm:
+                got = _norm(_function_body(b[mm.start():], fn))
+        if got not in want:
+            raise ParseError("StripedScores::%s() is `%s`, expected `%s`" % (fn, got, want[0]))
+    # the default scans of pli/mod.rs
+    for trait, fn, key in (("Maximum", "argmax", "scan_argmax"), ("Threshold", "threshold", "scan_threshold")):
+        m = re.search(r"\bpub\s+trait\s+%s\b[^{]*" % trait, mod)
+        if not m:
+            raise ParseError("trait %s not found" % trait)
+        tb, _ = _block(mod, m.end())
+        fm = re.search(r"\bfn\s+%s\b" % fn, tb)
+        if not fm:
+            raise ParseError("%s::%s has no default implementation" % (trait, fn))
+        fb = _function_body(tb[fm.start():], fn)
+        sm_ = re.search(r"\bfn\s+%s\s*\(\s*&\s*self\s*,\s*(\w+)\s*:" % fn, tb[fm.start():])
+        sc = sm_.group(1) if sm_ else "scores"
+        loops = re.findall(r"\bfor\s+(.*?)\s+in\s+(.*?)\s*\{", fb, flags=re.S)
+        if not loops:
+            raise ParseError("%s::%s: no loop found" % (trait, fn))
+        pat, it = _norm(loops[0][0]), _norm(loops[0][1])
+        if re.fullmatch(r"\(\w+,\w+\)", pat) and it == "%s.matrix().iter().enumerate()" % sc:
+            out[key] = "ScanMatrixIter"
+        elif re.fullmatch(r"\w+", pat) and it in ("0..%s.matrix().rows()" % sc,):
+            out[key] = "ScanRowsIndex"
+        else:
+            raise ParseError("%s::%s: the outer loop is `for %s in %s`" % (trait, fn, pat, it[:80]))
+    return out
+
+
 def _pairs(l):
     return "[" + "; ".join("(%d, %d)" % p for p in l) + "]"
 
 
-def render(disp, pipes, k, lanes):
+def render(disp, pipes, k, lanes, buf, cmp):
     L = []
     L.append("(* GENERATED by translate/maxi_tables.py from /repo/lightmotif/src/pli/{dispatch.rs,mod.rs,")
     L.append("   platform/avx2.rs,platform/sse2.rs} -- do not edit; regenerated on every check. *)")
     L.append("From Coq Require Import List ZArith.")
-    L.append("From LMMaxi Require Import MaxiModel.")
+    L.append("From LMMaxi Require Import MaxiModel MaxiBuffer.")
     L.append("Import ListNotations.")
     L.append("")
     L.append("(* `match self.backend` of impl Maximum<T, Lanes> for Pipeline<A, Dispatch> *)")
@@ -403,6 +633,25 @@ def render(disp, pipes, k, lanes):
              "; ".join("(%d, (%d)%%Z)" % p for p in k["u8_s_init"]) + "].")
     L.append("Definition gen_argmax_u8_ones : Z := (%d)%%Z." % k["u8_ones"])
     L.append("")
+    L.append("(* reused score buffers: statements of DenseMatrix::resize and StripedScores::resize, what")
+    L.append("   dense::Iter::new iterates over, what the default Maximum::argmax / Threshold::threshold")
+    L.append("   loop over (dense.rs, scores.rs, pli/mod.rs) *)")
+    L.append("Definition gen_dense_resize : list dense_stmt := [%s]." % "; ".join(buf["dense_resize"]))
+    L.append("Definition gen_scores_resize : list scores_stmt := [%s]." % "; ".join(buf["scores_resize"]))
+    L.append("Definition gen_dense_iter : iter_source := %s." % buf["iter"])
+    L.append("Definition gen_scan_argmax : scan_source := %s." % buf["scan_argmax"])
+    L.append("Definition gen_scan_threshold : scan_source := %s." % buf["scan_threshold"])
+    L.append("")
+    L.append("(* f32 arg-max kernels: comparison of the vector step (running maximum k against row register k),")
+    L.append("   comparison of the final scalar reduction, lane count of the SSE2 backend and the block offsets")
+    L.append("   of argmax_sse2 (`(0..C::Quotient::USIZE).map(|i| i * Lanes::USIZE)`, q = C / Lanes) *)")
+    L.append("Definition gen_sse2_lanes : nat := %d." % cmp["sse2_lanes"])
+    L.append("Definition gen_argmax_sse2_block_offsets (q : nat) : list nat := map (fun i => i * gen_sse2_lanes) (seq 0 q).")
+    L.append("Definition gen_argmax_sse2_vcmp : vcmp := %s." % cmp["sse2_vcmp"])
+    L.append("Definition gen_argmax_sse2_rcmp : rcmp := %s." % cmp["sse2_rcmp"])
+    L.append("Definition gen_argmax_f32_avx2_vcmp : vcmp := %s." % cmp["avx2_vcmp"])
+    L.append("Definition gen_argmax_f32_avx2_rcmp : rcmp := %s." % cmp["avx2_rcmp"])
+    L.append("")
     return "\n".join(L)
 
 
@@ -414,8 +663,10 @@ def run(write=True):
         pipes = parse_pipelines(wrappers)
         k = parse_kernels()
         lanes = parse_lanes()
-        text = render(disp, pipes, k, lanes)
-    except (ParseError, OSError, ValueError) as e:
+        buf = parse_buffer()
+        cmp = parse_compares()
+        text = render(disp, pipes, k, lanes, buf, cmp)
+    except (ParseError, OSError, ValueError, IndexError, KeyError, AttributeError) as e:
         errors.append("maxi_tables: cannot parse the source: %s" % e)
         if not os.path.exists(OUT):
             errors.append("no previously generated GenMaxi.v")
